@@ -95,9 +95,14 @@ FLAVOURS = [
 ]
 
 
+DIRECTED = ["prefix_siblings", "two_schemas_one_package", "copy_without_meta_below", "move_group_then_recreate"]
+
+
 def jobs(n: int, nops: int, seed: int, **kw) -> List[Dict[str, Any]]:
     return [{"tid": k + 1, "seed": seed * 17 + k, "nops": nops, "stage": 0 if k % 5 == 0 else 1,
-             "concrete": k % 4 in (0, 3), **(FLAVOURS + FLAVOURS[5:])[k % (len(FLAVOURS) + 1)], **kw} for k in range(n)]
+             "concrete": k % 4 in (0, 3), **(FLAVOURS + FLAVOURS[5:])[k % (len(FLAVOURS) + 1)],
+             # every fifth history opens with one of the scripted situations (contworker.directed_prologue)
+             **({"directed": DIRECTED[(k // 5) % len(DIRECTED)]} if k % 5 == 2 else {}), **kw} for k in range(n)]
 
 
 def run_container(rep: Report, wd: Path, pid: str, js: List[Dict[str, Any]], label: str = "container_histories",
